@@ -539,6 +539,17 @@ func (fc *FnCtx) modifiesToWS(ct *FuncContract, ws *WriteSet) {
 		switch {
 		case m == "all" || m == "*":
 			ws.All = true
+		case strings.HasPrefix(m, "map["):
+			// contents of maps of this Go type
+			ty := fc.lookupTypeNameIn(m, ct.PkgPath)
+			mt, ok := ty.(*types.Map)
+			if ty == nil || !ok {
+				fc.fail("modifies: unknown map type %s", m)
+			}
+			d, v, l := fc.mapVars(mt)
+			ws.add(d)
+			ws.add(v)
+			ws.add(l)
 		case strings.Contains(m, "."):
 			// Type.field
 			parts := strings.SplitN(m, ".", 2)
